@@ -171,6 +171,11 @@ Proof.
 Qed.
 Lemma ridx_orphan_children : forall ids rs p, ridx (orphan_children rs ids p) = ridx rs.
 Proof. induction ids; intros; simpl; [reflexivity|]. rewrite IHids. reflexivity. Qed.
+Lemma ridx_retrack : forall ids w r l rs, ridx (retrack_avatars w r l ids rs) = ridx rs.
+Proof.
+  induction ids as [|c t IH]; intros; simpl; [reflexivity|].
+  destruct (lookup_local w r c) as [co|]; [destruct (o_av co)|]; rewrite IH; reflexivity.
+Qed.
 Lemma ridx_collect : forall rs p, ridx (snd (collect_orphans rs p)) = ridx rs.
 Proof. intros. unfold collect_orphans. destruct (aget p (r_orphans rs)); reflexivity. Qed.
 
@@ -460,17 +465,17 @@ Proof.
   set (nr := dflt (p_region p) (o_region o)) in *. set (nl := dflt (p_lid p) (o_lid o)) in *.
   destruct (region_state w nr) as [rsn|] eqn:Enew; [|congruence]. clear Hnew.
   apply region_state_some in Enew. destruct Enew as [Ersn Htn].
-  destruct (o_region o =? nr) eqn:Qr; cbn [negb] in H.
+  destruct (o_region o =? nr) eqn:Qr; cbn [negb andb is_some] in H.
   - (* same region *)
     apply N.eqb_eq in Qr.
-    destruct (o_lid o =? nl) eqn:Ql; cbn [negb] in H.
+    destruct (o_lid o =? nl) eqn:Ql; cbn [negb andb is_some] in H.
     + (* same lid *)
       cbn [bind] in H. rewrite Eo in H. cbn [bind] in H.
       destruct (update_properties o p) as [o2 ch1] eqn:Eu.
       destruct (update_properties_core _ _ _ _ Eu) as (U1 & U2 & U3).
       rewrite N.eqb_sym, Qr' in H || idtac.
       assert (Qr2 : (nr =? o_region o) = true) by (apply N.eqb_eq; congruence).
-      rewrite Qr2 in H. cbn [negb] in H.
+      rewrite Qr2 in H. cbn [negb andb is_some] in H.
       bind_inv H. rename w0 into w3.
       assert (F2 : frame w (set_obj w o2)).
       { eapply (frame_set_obj w f o); [exact Eo| |exact Kf]. unfold core. fold nl in U1. fold nr in U3.
@@ -505,7 +510,7 @@ Proof.
       destruct (update_properties o1b p) as [o2 ch1] eqn:Eu.
       destruct (update_properties_core _ _ _ _ Eu) as (U1 & U2 & U3).
       assert (Qr2 : (nr =? o_region o) = true) by (apply N.eqb_eq; congruence).
-      rewrite Qr2 in H. cbn [negb] in H.
+      rewrite Qr2 in H. cbn [negb andb is_some] in H.
       bind_inv H. rename w0 into w3.
       (* core of o1b = core (with_lid o1 nl) *)
       pose proof (FO2 f) as Cb. rewrite E2, Eo1n in Cb. cbn in Cb. inversion Cb as [[Cbl Cbf Cbr]].
@@ -530,7 +535,7 @@ Proof.
     destruct (update_properties o1 p) as [o2 ch1] eqn:Eu.
     destruct (update_properties_core _ _ _ _ Eu) as (U1 & U2 & U3).
     assert (Qr2 : (nr =? o_region o) = false) by (rewrite N.eqb_sym; exact Qr).
-    rewrite Qr2 in H. cbn [negb] in H.
+    rewrite Qr2 in H. cbn [negb andb is_some] in H.
     bind_inv H. rename w0 into w3.
     assert (IX2 : IdxX (set_obj w1 o2) f).
     { apply IdxX_set_obj; [exact IX1|]. congruence. }
@@ -633,8 +638,8 @@ Proof.
     destruct (get_obj w2 g) as [o2|]; cbn in FO; [|discriminate]. exists o2. split; congruence.
   - bind_inv H. rename r0 into rs2.
     destruct (collect_orphans rs2 l) as [ch rs3] eqn:Ec.
-    assert (F2 : frame w1 (set_rs (cancel_futures w1 r l) r rs3)).
-    { eapply frame_trans; [apply frame_set_futs|]. eapply frame_set_rs; [exact E0|].
+    assert (F2 : frame w1 (set_rs (cancel_futures w1 r l) r (retrack_avatars (cancel_futures w1 r l) r l ch rs3))).
+    { eapply frame_trans; [apply frame_set_futs|]. eapply frame_set_rs; [exact E0|]. rewrite ridx_retrack.
       change rs3 with (snd (ch, rs3)). rewrite <- Ec. apply ridx_collect. }
     destruct (kill_children_Idx _ _ IHk _ _ _ (frame_Idx _ _ F2 I1) H) as [I3 S3].
     split; [exact I3|]. eapply shrinks_trans; [apply frame_shrinks; exact F1|].
